@@ -120,13 +120,19 @@ def _blocks(blocks, c: _Ctx, listlevel=None, in_cell=False) -> str:
         elif t == "tbl":
             rows = []
             ncols = max(len(r) for r in b[1])
+            # in every second table shape an empty cell right of a non-empty one is the covered part of a horizontal merge:
+            # WordprocessingML writes ONE w:tc with w:gridSpan for both grid positions
+            merge = ncols >= 3 or (len(b[1]) + ncols) % 2 == 0
             for row in b[1]:
                 cells = []
-                for cell in row:
+                for j, cell in enumerate(row):
+                    if merge and 0 < j and not cell and row[j - 1]:
+                        continue
+                    span = '<w:gridSpan w:val="2"/>' if merge and cell and j + 1 < len(row) and not row[j + 1] else ""
                     inner = _blocks(cell, c, in_cell=True)
                     if not inner.endswith("</w:p>"):
                         inner += "<w:p/>"       # a cell must end with a paragraph
-                    cells.append(f'<w:tc><w:tcPr><w:tcW w:w="2000" w:type="dxa"/></w:tcPr>{inner}</w:tc>')
+                    cells.append(f'<w:tc><w:tcPr><w:tcW w:w="{4000 if span else 2000}" w:type="dxa"/>{span}</w:tcPr>{inner}</w:tc>')
                 rows.append("<w:tr>" + "".join(cells) + "</w:tr>")
             grid = "".join('<w:gridCol w:w="2000"/>' for _ in range(ncols))
             out.append(f'<w:tbl><w:tblPr><w:tblW w:w="0" w:type="auto"/></w:tblPr><w:tblGrid>{grid}</w:tblGrid>'
